@@ -54,14 +54,16 @@ pub fn file_rows_raw(out: &str, n: usize, delim: &str, header: bool, evs: &mut V
 pub fn oligo_batch(seed: u64, runs: usize, dir: &str, maxn: usize) {
     let mut rng = Rng::new(seed);
     for i in 0..runs {
-        let n = if i % 6 == 0 { rng.below(3) as usize + 1 } else { rng.range(1, maxn as u64) as usize };
+        // every fifth run is one large batch on many threads (parallel conversion of hundreds of records in one flush)
+        let big = i % 5 == 2;
+        let n = if i % 6 == 0 { rng.below(3) as usize + 1 } else if big { rng.range(300, 700) as usize } else { rng.range(1, maxn as u64) as usize };
         let seqs = coded_raw_records(n, &mut rng);
         let inp = format!("{}/ob_in.fa", dir);
         let out = format!("{}/ob_out.txt", dir);
         write_fasta(&inp, &seqs);
         let _ = std::fs::remove_file(&out);
-        let mem = *rng.pick(&[1usize, 7, 64, 1 << 32]);
-        let threads = 1 + rng.below(16) as usize;
+        let mem = if big { 1usize << 32 } else { *rng.pick(&[1usize, 7, 64, 1 << 32]) };
+        let threads = if big { 4 + rng.below(13) as usize } else { 1 + rng.below(16) as usize };
         let delim = *rng.pick(&[" ", ",", "\t"]);
         let header = rng.chance(1, 2);
         let rec = Recorder::free(None);
